@@ -1,4 +1,4 @@
-CONSTANT NP = 6
+CONSTANT NP = 8
 INIT Init
 NEXT Next
 CHECK_DEADLOCK FALSE
